@@ -1,3 +1,403 @@
 package main
 
-func configStage(dir string, seed uint64, tier string) error { return nil }
+// stage config: generated ImageConfigurations through the real
+// BuildImageFromLayer(s); the config JSON is read back from the image and
+// handed to Coq together with the inputs and the oracle results of shlex.Split
+// and time.Format on the strings of the case.
+
+import (
+	"encoding/json"
+	"fmt"
+	"io"
+	"sort"
+	"time"
+
+	v1 "github.com/google/go-containerregistry/pkg/v1"
+	"github.com/google/go-containerregistry/pkg/v1/empty"
+	"github.com/google/shlex"
+
+	"chainguard.dev/apko/pkg/build/oci"
+	"chainguard.dev/apko/pkg/build/types"
+	"verifharness/gal"
+)
+
+// the observable part of a config file, decoded independently of ggcr's types
+type rawConfig struct {
+	Architecture string `json:"architecture"`
+	Author       string `json:"author"`
+	Created      string `json:"created"`
+	OS           string `json:"os"`
+	Variant      string `json:"variant"`
+	Config       struct {
+		Entrypoint []string            `json:"Entrypoint"`
+		Cmd        []string            `json:"Cmd"`
+		WorkingDir string              `json:"WorkingDir"`
+		User       string              `json:"User"`
+		StopSignal string              `json:"StopSignal"`
+		Volumes    map[string]struct{} `json:"Volumes"`
+		Env        []string            `json:"Env"`
+		Labels     map[string]string   `json:"Labels"`
+	} `json:"config"`
+}
+
+func galPairs(m map[string]string) string {
+	ks := make([]string, 0, len(m))
+	for k := range m {
+		ks = append(ks, k)
+	}
+	sort.Strings(ks)
+	it := make([]string, len(ks))
+	for i, k := range ks {
+		it[i] = gal.Pair(gal.Str(k), gal.Str(m[k]))
+	}
+	return gal.List(it)
+}
+
+func galOciConfig(rc *rawConfig) (string, error) {
+	var created int64
+	if rc.Created != "" {
+		t, err := time.Parse(time.RFC3339Nano, rc.Created)
+		if err != nil {
+			return "", fmt.Errorf("config created %q: %w", rc.Created, err)
+		}
+		created = t.Unix()
+	}
+	vols := make([]string, 0, len(rc.Config.Volumes))
+	for v := range rc.Config.Volumes {
+		vols = append(vols, v)
+	}
+	sort.Strings(vols)
+	return fmt.Sprintf("{| oc_author := %s; oc_os := %s; oc_architecture := %s; oc_variant := %s; oc_created := %s; oc_entrypoint := %s; oc_cmd := %s; oc_workdir := %s; oc_user := %s; oc_stop_signal := %s; oc_volumes := %s; oc_env := %s; oc_labels := %s |}",
+		gal.Str(rc.Author), gal.Str(rc.OS), gal.Str(rc.Architecture), gal.Str(rc.Variant), gal.Z(created),
+		gal.StrList(rc.Config.Entrypoint), gal.StrList(rc.Config.Cmd), gal.Str(rc.Config.WorkingDir), gal.Str(rc.Config.User),
+		gal.Str(rc.Config.StopSignal), gal.StrList(vols), gal.StrList(rc.Config.Env), galPairs(rc.Config.Labels)), nil
+}
+
+func galImageConfig(ic *types.ImageConfiguration) string {
+	return fmt.Sprintf("{| ic_shell_fragment := %s; ic_command := %s; ic_cmd := %s; ic_workdir := %s; ic_run_as := %s; ic_stop_signal := %s; ic_volumes := %s; ic_env := %s; ic_annotations := %s; ic_vcs_url := %s |}",
+		gal.Str(ic.Entrypoint.ShellFragment), gal.Str(ic.Entrypoint.Command), gal.Str(ic.Cmd), gal.Str(ic.WorkDir), gal.Str(ic.Accounts.RunAs),
+		gal.Str(ic.StopSignal), gal.StrList(ic.Volumes), galPairs(ic.Environment), galPairs(ic.Annotations), gal.Str(ic.VCSUrl))
+}
+
+func readConfig(img v1.Image) (*rawConfig, error) {
+	raw, err := img.RawConfigFile()
+	if err != nil {
+		return nil, err
+	}
+	var rc rawConfig
+	if err := json.Unmarshal(raw, &rc); err != nil {
+		return nil, err
+	}
+	return &rc, nil
+}
+
+func shlexOracle(ss ...string) string {
+	seen := map[string]bool{}
+	var it []string
+	for _, s := range ss {
+		if s == "" || seen[s] {
+			continue
+		}
+		seen[s] = true
+		ws, err := shlex.Split(s)
+		if err != nil {
+			it = append(it, gal.Pair(gal.Str(s), "None"))
+		} else {
+			it = append(it, gal.Pair(gal.Str(s), "(Some "+gal.StrList(ws)+")"))
+		}
+	}
+	return gal.List(it)
+}
+
+const emptyOciConfig = "empty_config"
+
+type configDesc struct {
+	IC      types.ImageConfiguration `json:"image_configuration"`
+	Arch    string                   `json:"arch"`
+	Created string                   `json:"created"`
+	Base    *types.ImageConfiguration `json:"base_image_configuration,omitempty"`
+	Layers  int                      `json:"layers"`
+	Err     string                   `json:"error,omitempty"`
+}
+
+func copyMap(m map[string]string) map[string]string {
+	if m == nil {
+		return nil
+	}
+	c := map[string]string{}
+	for k, v := range m {
+		c[k] = v
+	}
+	return c
+}
+
+// one case: build (optionally on a base built from baseIC), read back, print
+func configCase(w *gal.Writer, ic types.ImageConfiguration, baseIC *types.ImageConfiguration, arch string, created time.Time, nLayers int, class string) error {
+	var base v1.Image = empty.Image
+	baseTerm := emptyOciConfig
+	if baseIC != nil {
+		ls, err := mkLayers("base", 1, true)
+		if err != nil {
+			return err
+		}
+		b, err := oci.BuildImageFromLayers(ctx, empty.Image, ls, *baseIC, time.Unix(1, 0).UTC(), types.Architecture("amd64"))
+		if err != nil {
+			return fmt.Errorf("base image: %w", err)
+		}
+		rc, err := readConfig(b)
+		if err != nil {
+			return err
+		}
+		if baseTerm, err = galOciConfig(rc); err != nil {
+			return err
+		}
+		base = b
+	}
+	ls, err := mkLayers("cfg-"+arch, nLayers, nLayers%2 == 0)
+	if err != nil {
+		return err
+	}
+	// the implementation must not modify its input: keep a copy to compare
+	in := ic
+	in.Environment = copyMap(ic.Environment)
+	in.Annotations = copyMap(ic.Annotations)
+	in.Volumes = append([]string(nil), ic.Volumes...)
+	var img v1.Image
+	var berr error
+	func() {
+		defer func() {
+			if r := recover(); r != nil {
+				berr = fmt.Errorf("panic: %v", r)
+				implViolation("config-build-panic", map[string]any{"ic": in, "arch": arch, "panic": fmt.Sprint(r)})
+			}
+		}()
+		img, berr = oci.BuildImageFromLayers(ctx, base, ls, ic, created, types.Architecture(arch))
+	}()
+	if fmt.Sprint(in.Environment) != fmt.Sprint(ic.Environment) || fmt.Sprint(in.Annotations) != fmt.Sprint(ic.Annotations) {
+		implViolation("config-input-mutated", map[string]any{"before": in, "after": ic})
+	}
+	obsTerm := emptyOciConfig
+	desc := configDesc{IC: in, Arch: arch, Created: created.Format(time.RFC3339Nano), Base: baseIC, Layers: nLayers}
+	if berr != nil {
+		desc.Err = berr.Error()
+	} else {
+		rc, err := readConfig(img)
+		if err != nil {
+			return err
+		}
+		if obsTerm, err = galOciConfig(rc); err != nil {
+			return err
+		}
+		// byte-level: descriptors, diff-ids of the in-memory image (exploration)
+		rawM, err := img.RawManifest()
+		if err != nil {
+			return err
+		}
+		get := func(hexd string, layer bool) ([]byte, bool) {
+			if !layer {
+				b, err := img.RawConfigFile()
+				return b, err == nil && sha(b) == hexd
+			}
+			lys, _ := img.Layers()
+			for _, l := range lys {
+				if d, err := l.Digest(); err == nil && d.Hex == hexd {
+					rcl, err := l.Compressed()
+					if err != nil {
+						return nil, false
+					}
+					defer rcl.Close()
+					b, err := io.ReadAll(rcl)
+					return b, err == nil
+				}
+			}
+			return nil, false
+		}
+		verifyImage(rawM, get, func(tag, what string) {
+			implViolation(tag, map[string]any{"where": "in-memory image", "ic": in, "arch": arch, "what": what})
+		})
+		var m v1.Manifest
+		if json.Unmarshal(rawM, &m) == nil {
+			wantLayers := nLayers
+			if baseIC != nil {
+				wantLayers++
+			}
+			if len(m.Layers) != wantLayers {
+				implViolation("layer-count", map[string]any{"ic": in, "layers": len(m.Layers), "want": wantLayers})
+			}
+			// manifest annotations mirror the labels
+			if fmt.Sprint(m.Annotations) != fmt.Sprint(rc.Config.Labels) && !(len(m.Annotations) == 0 && len(rc.Config.Labels) == 0) {
+				implViolation("manifest-annotations-differ-from-labels", map[string]any{"ic": in, "annotations": m.Annotations, "labels": rc.Config.Labels})
+			}
+		}
+	}
+	term := fmt.Sprintf("{| cc_ic := %s; cc_base := %s; cc_created := %s; cc_arch := %s; cc_shlex := %s; cc_rfc3339 := %s; co_err := %s; co_cfg := %s |}",
+		galImageConfig(&in), baseTerm, gal.Z(created.Unix()), gal.Str(arch),
+		shlexOracle(in.Entrypoint.Command, in.Cmd), gal.Str(created.Format(time.RFC3339)), gal.Bool(berr != nil), obsTerm)
+	w.Add(gal.Case{Term: term, Desc: desc, Class: class})
+	return nil
+}
+
+var (
+	cmdForms = []string{"", "/usr/bin/app", "/usr/bin/app --flag value", `/bin/sh -c "echo hi there"`, `a 'b c' "d e" f\ g`, "   ", "app # trailing comment",
+		`"unterminated`, `it's broken`, `tab	separated  words`, `é/ünï --x=1`, `a "" b`, `\`}
+	fragForms = []string{"", "echo $HOME && ls -l", `exec "$@"`, " ", "#!/bin/sh\nexit 0"}
+	userForms = []string{"", "65532", "nonroot", "0:0", "65532:65532"}
+	dirForms  = []string{"", "/app", "/", "relative/dir", "/with space"}
+	sigForms  = []string{"", "SIGTERM", "9", "SIGRTMIN+3"}
+	volForms  = [][]string{nil, {}, {"/data"}, {"/b", "/a", "/b"}, {"/var/lib/x", "/var/lib/y", "/tmp"}, {""}}
+	vcsForms  = []string{"", "https://github.com/x/y", "https://github.com/x/y@deadbeef", "git@github.com:x/y@abc", "@abc", "x@", "@", "a@b@c", "git+ssh://github.com/o/r@0123456789abcdef"}
+	archForms = []string{"386", "amd64", "arm64", "arm/v6", "arm/v7", "loong64", "ppc64le", "riscv64", "s390x",
+		"x86", "x86_64", "aarch64", "armhf", "armv7", "loongarch64", "mips64"}
+)
+
+func genEnv(r *gal.Rand) map[string]string {
+	switch r.Intn(9) {
+	case 0:
+		return nil
+	case 1:
+		return map[string]string{}
+	case 2:
+		return map[string]string{"PATH": "/custom/bin"}
+	case 3:
+		return map[string]string{"SSL_CERT_FILE": "/my/ca.pem", "A": "1"}
+	case 4:
+		return map[string]string{"PATH": "", "SSL_CERT_FILE": "", "Z": "z"}
+	case 5: // entries whose order as "k=v" strings differs from the order of their keys
+		return map[string]string{"A": "1", "A-B": "2", "A.B": "3", "AB": "4", "a": "5"}
+	case 6:
+		return map[string]string{"K": "v=with=equals", "EMPTY": "", "SP ACE": "x y", "é": "ü"}
+	}
+	m := map[string]string{}
+	for i, n := 0, 1+r.Intn(10); i < n; i++ {
+		k := gal.Pick(r, []string{"PATH", "SSL_CERT_FILE", "HOME", "LANG", "A", "B", "PATH_EXTRA", "SSL", "path", "Z_LAST", "0", "_"})
+		if r.Chance(1, 4) {
+			k = k + fmt.Sprint(r.Intn(3))
+		}
+		m[k] = gal.Pick(r, []string{"", "1", "/usr/local/sbin:/usr/local/bin:/usr/bin:/usr/sbin:/sbin:/bin", "x=y", "/etc/ssl/certs/ca-certificates.crt", "v w"})
+	}
+	return m
+}
+
+func genAnn(r *gal.Rand) map[string]string {
+	switch r.Intn(7) {
+	case 0:
+		return nil
+	case 1:
+		return map[string]string{}
+	case 2:
+		return map[string]string{"org.opencontainers.image.created": "configured-created", "org.opencontainers.image.source": "configured-source", "org.opencontainers.image.revision": "configured-revision"}
+	case 3:
+		return map[string]string{"org.opencontainers.image.source": "configured-source", "k": "v"}
+	}
+	m := map[string]string{}
+	for i, n := 0, 1+r.Intn(5); i < n; i++ {
+		m[gal.Pick(r, []string{"a", "b", "org.opencontainers.image.authors", "org.opencontainers.image.url", "dev.chainguard.x", "org.opencontainers.image.revision", "é"})] = gal.Pick(r, []string{"", "v", "x y", "https://e/x@y"})
+	}
+	return m
+}
+
+func genIC(r *gal.Rand) types.ImageConfiguration {
+	var ic types.ImageConfiguration
+	switch r.Intn(6) {
+	case 0: // nothing
+	case 1, 2:
+		ic.Entrypoint.Command = gal.Pick(r, cmdForms)
+	case 3:
+		ic.Entrypoint.ShellFragment = gal.Pick(r, fragForms)
+	case 4: // both: the fragment wins
+		ic.Entrypoint.ShellFragment = gal.Pick(r, fragForms)
+		ic.Entrypoint.Command = gal.Pick(r, cmdForms)
+	case 5:
+		ic.Entrypoint.Type = "service-bundle"
+		ic.Entrypoint.Services = map[string]string{"svc": "/bin/svc"}
+		if r.Bool() {
+			ic.Entrypoint.Command = gal.Pick(r, cmdForms)
+		}
+	}
+	if r.Chance(1, 2) {
+		ic.Cmd = gal.Pick(r, cmdForms)
+	}
+	ic.Accounts.RunAs = gal.Pick(r, userForms)
+	ic.WorkDir = gal.Pick(r, dirForms)
+	ic.StopSignal = gal.Pick(r, sigForms)
+	ic.Volumes = gal.Pick(r, volForms)
+	ic.Environment = genEnv(r)
+	ic.Annotations = genAnn(r)
+	ic.VCSUrl = gal.Pick(r, vcsForms)
+	return ic
+}
+
+func configStage(dir string, seed uint64, tier string) error {
+	w := &gal.Writer{Dir: dir, Require: "From Apko Require Import Corr.C12.", Type: "config_case", Check: "check_config", Shard: 250}
+	t0 := time.Unix(1700000000, 0).UTC()
+	// corpus: hand-picked corners
+	corners := []types.ImageConfiguration{
+		{},
+		{Entrypoint: types.ImageEntrypoint{Command: "/usr/bin/app --flag"}, Cmd: "--help", WorkDir: "/w", StopSignal: "SIGINT", Accounts: types.ImageAccounts{RunAs: "65532"},
+			Volumes: []string{"/data"}, Environment: map[string]string{"PATH": "/bin"}, Annotations: map[string]string{"a": "b"}, VCSUrl: "https://x/y@abc@def"},
+		{Entrypoint: types.ImageEntrypoint{ShellFragment: "echo hi", Command: "/ignored"}},
+		{Entrypoint: types.ImageEntrypoint{Command: `"unterminated`}},
+		{Cmd: `it's broken`},
+		{Environment: map[string]string{"PATH": "/configured", "SSL_CERT_FILE": "/configured.pem"}},
+		{Environment: map[string]string{"A": "1", "A-B": "2", "A.B": "3", "AB": "4"}},
+		{Annotations: map[string]string{"org.opencontainers.image.created": "x", "org.opencontainers.image.source": "s", "org.opencontainers.image.revision": "r"}, VCSUrl: "no-at-sign"},
+		{Annotations: map[string]string{"org.opencontainers.image.source": "s"}, VCSUrl: "u@h"},
+		{VCSUrl: "@"},
+		{Volumes: []string{"/b", "/a", "/b"}},
+		{Volumes: []string{}},
+	}
+	for i, ic := range corners {
+		if err := configCase(w, ic, nil, archForms[i%len(archForms)], t0, 1, "corner"); err != nil {
+			return err
+		}
+	}
+	// every architecture name once, with a fixed non-trivial configuration
+	for _, a := range archForms {
+		if err := configCase(w, corners[1], nil, a, t0, 1, "per-architecture"); err != nil {
+			return err
+		}
+	}
+	// created times: zones, sub-second parts, epoch 0, far future
+	times := []time.Time{time.Unix(0, 0).UTC(), time.Unix(1700000000, 0).In(time.FixedZone("X", 2*3600)), time.Unix(1700000000, 123456789).UTC(),
+		time.Unix(253402300799, 0).UTC(), time.Unix(951782400, 0).In(time.FixedZone("Y", -(5*3600 + 30*60)))}
+	for _, tm := range times {
+		if err := configCase(w, corners[1], nil, "amd64", tm, 1, "created-time"); err != nil {
+			return err
+		}
+	}
+	// on top of a base image that already has a config
+	baseIC := types.ImageConfiguration{Entrypoint: types.ImageEntrypoint{Command: "/base/entry"}, Cmd: "base-cmd", WorkDir: "/base", StopSignal: "SIGQUIT",
+		Accounts: types.ImageAccounts{RunAs: "base-user"}, Volumes: []string{"/base-vol"}, Environment: map[string]string{"BASE": "1"}, Annotations: map[string]string{"base": "ann"}}
+	for _, ic := range []types.ImageConfiguration{{}, corners[1], corners[2], {Volumes: []string{"/v"}}, {Cmd: "only-cmd"}} {
+		if err := configCase(w, ic, &baseIC, "arm64", t0, 1, "on-base-image"); err != nil {
+			return err
+		}
+	}
+	r := gal.NewRand(seed)
+	n := 300
+	if tier == "thorough" {
+		n = 4000
+	}
+	for i := 0; i < n; i++ {
+		ic := genIC(r)
+		var b *types.ImageConfiguration
+		class := "random"
+		if r.Chance(1, 6) {
+			bb := genIC(r)
+			// the base must build: drop command lines shlex rejects
+			if _, err := shlex.Split(bb.Entrypoint.Command); err != nil {
+				bb.Entrypoint.Command = ""
+			}
+			if _, err := shlex.Split(bb.Cmd); err != nil {
+				bb.Cmd = ""
+			}
+			b = &bb
+			class = "random-on-base"
+		}
+		tm := time.Unix(int64(r.Intn(2000000000)), 0).UTC()
+		if err := configCase(w, ic, b, gal.Pick(r, archForms), tm, 1+r.Intn(3), class); err != nil {
+			return err
+		}
+	}
+	return w.Flush()
+}
